@@ -37,7 +37,7 @@ def bv(baddr, tag):
 
 class WbHarness(Harness):
     def __init__(self, wbw=32, pw=32, K=3, base_address=0, aborts=False, naddr=None, sels=None, ctis=(0, 2), ops="RW", wait_states=True,
-                 idle_ones=False, pattern=None, burst_cut=None, abort_ops="RW", wmin=3, rmin=6, qmax=3, adr_width=8, port_aw=6, idle_stb=False):
+                 idle_ones=False, pattern=None, burst_cut=None, abort_ops="RW", wmin=3, rmin=6, qmax=3, adr_width=8, port_aw=6, idle_stb=False, decoupled=False):
         from litex.soc.interconnect import wishbone
         from litedram.common import LiteDRAMNativePort
         from litedram.frontend.wishbone import LiteDRAMWishbone2Native
@@ -56,7 +56,7 @@ class WbHarness(Harness):
         assert base_address % self.bw == 0
         self.base_w = base_address // self.bw
         assert self.base_w + self.naddr <= (1 << adr_width)
-        self.resp = Responder(c, [port], wmin=wmin, rmin=rmin, qmax=qmax, mem_init=self.mem_init, addr_ok=lambda p, a: a < self.nto)
+        self.resp = Responder(c, [port], wmin=wmin, rmin=rmin, qmax=qmax, mem_init=self.mem_init, addr_ok=lambda p, a: a < self.nto, decoupled=decoupled)
         full = (1 << self.bw) - 1
         if sels is None:
             sels = [full] + ([] if self.bw == 1 else [0b10 if self.bw == 2 else (0b0110 if self.bw == 4 else full >> 1)])
@@ -129,7 +129,8 @@ class WbHarness(Harness):
         return [(m, r) for m in self.master_menu(E) for r in rm]
 
     def describe(self, ch):
-        m, (rb, serve) = ch
+        m, rch = ch
+        rb, serve = rch[0], rch[1]
         if isinstance(m, (tuple, list)):
             we, a, sel, cti = m
             s = "%s a%d sel=%x cti=%d" % ("WRITE" if we else "READ", a, sel, cti)
@@ -239,7 +240,7 @@ class WbHarness(Harness):
             burst = None
         E2 = (pend, bud, burst, ref, rs2, hab)
         # quiescence: fixed point under (master idle, cyc low, cmd.ready=1, nothing owed)
-        idle_coop = m == I0 and rch == (1, ()) and not rs[0]
+        idle_coop = m == I0 and rch == self.resp.default_choice(rs) and self.resp.idle(rs)
         if idle_coop and S2 == S and E2 == E:
             mem = self._membytes(rs2)
             badb = [(b, mem[b], ref[b]) for b in range(self.total_bytes) if mem[b] not in ref[b]]
@@ -248,8 +249,7 @@ class WbHarness(Harness):
                 self.report("wb.quiescent_memory", "everything idle (fixed point) but memory differs from the reference at bytes %s (byte, memory, allowed)" % (
                     [(b, "%02x" % g, ["%02x" % x for x in al]) for b, g, al in badb]), kind="quiescent_memory")
         ev = 0
-        el = self.resp.eligible(rs[0])
-        rcoop = rch == (1 if len(rs[0]) < self.resp.qmax else 0, (el[0],) if el else ())
+        rcoop = rch == self.resp.default_choice(rs)
         if rcoop:
             if E[0] is not None and m == HOLD: ev |= EV_OUT                                   # started access waits for its ack
             elif E[0] is None and m == I0 and (rs[0] or S2 != S or E2 != E): ev |= EV_OUT      # bridge/memory still busy after the master went idle
@@ -271,10 +271,10 @@ class WbHarness(Harness):
     def quiescence_check(self, res):
         from engine import explore
         fp = 0; bad = 0; viols = []; idle_states = 0
-        ch = (I0, (1, ()))
         for st, i in res.index.items():
             S, E = st
             if E[0] is not None or E[4][0] or (E[2] is not None and not self.burst_cut): continue
+            ch = (I0, self.resp.default_choice(E[4]))
             idle_states += 1
             try:
                 S2, E2, ev, vl = self.step(S, E, ch)
@@ -463,6 +463,10 @@ def configs(tier):
         add("narrow-32on64-K3", wbw=32, pw=64, K=3)
         add("narrow-16on32-K3-base0x42-idleones", wbw=16, pw=32, K=3, base_address=0x42, idle_ones=True)
         add("eq-32on32-K4", wbw=32, pw=32, K=4, naddr=3)
+        # the same bridge on a port that sits behind stream buffering (CDC / converted port): write data ready independent of commands
+        add("eq-32on32-K3-streamport", wbw=32, pw=32, K=3, naddr=2, decoupled=True)
+        add("wide-32on16-K2-streamport", wbw=32, pw=16, K=2, naddr=2, decoupled=True)
+        add("narrow-16on32-K3-streamport", wbw=16, pw=32, K=3, decoupled=True)
         add("eq-32on32-K4-readaborts", wbw=32, pw=32, K=4, naddr=2, aborts=True, abort_ops="R")
         add("eq-32on32-K3-aborts", wbw=32, pw=32, K=3, naddr=2, aborts=True)
         add("eq-32on32-K3-base0x40", wbw=32, pw=32, K=3, naddr=3, base_address=0x40)
